@@ -270,6 +270,7 @@ type gRun struct {
 	lenEq   map[int]int // opaque list object id -> known length
 	bounded bool        // some input list was enumerated up to gramListBound elements
 	inlineDepth int
+	cbSites map[*ssa.Call]bool // error-reporting call sites executed on this path
 }
 
 const gramListBound = 2
@@ -1717,6 +1718,7 @@ func (r *gRun) call(i *ssa.Call) {
 				r.fail("nilfunc", i.Pos(), "call through %s which may be nil (no nil test dominates the call)", f.Obj.Origin)
 			}
 			r.cbCalls++
+			r.noteCbSite(i)
 			return
 		}
 		r.fail("subset", i.Pos(), "dynamic call of %s", describeG(fv))
@@ -1797,6 +1799,7 @@ func (r *gRun) call(i *ssa.Call) {
 	if r.gp.guardedCallbackHelper(callee) {
 		// a method of *Parser that is exactly "if p.errHandlerFunc == nil { return }; p.errHandlerFunc(e)"
 		r.cbCalls++
+		r.noteCbSite(i)
 		return
 	}
 	if r.inlineCall(i, callee, args) {
@@ -1804,6 +1807,38 @@ func (r *gRun) call(i *ssa.Call) {
 	}
 	r.fail("subset", i.Pos(), "call of %s is outside the modelled subset", full)
 	panic(gAbort{"unmodelled call"})
+}
+
+func (r *gRun) noteCbSite(i *ssa.Call) {
+	if r.cbSites == nil {
+		r.cbSites = map[*ssa.Call]bool{}
+	}
+	r.cbSites[i] = true
+}
+
+// errorSites: the call sites inside a rule's action that report an error (the guarded callback helper
+// of the parser, or the callback itself).
+func (gp *gramParser) errorSites(reg *gramRegion) []*ssa.Call {
+	var out []*ssa.Call
+	seen := map[*ssa.BasicBlock]bool{}
+	stack := []*ssa.BasicBlock{reg.Entry}
+	for len(stack) > 0 {
+		b := stack[len(stack)-1]
+		stack = stack[:len(stack)-1]
+		if seen[b] || b == gp.Done {
+			continue
+		}
+		seen[b] = true
+		for _, in := range b.Instrs {
+			if c, ok := in.(*ssa.Call); ok {
+				if f := c.Common().StaticCallee(); f != nil && gp.guardedCallbackHelper(f) {
+					out = append(out, c)
+				}
+			}
+		}
+		stack = append(stack, b.Succs...)
+	}
+	return out
 }
 
 // inlineCall executes a loop-free helper of the module in place (an action refactored into a helper
